@@ -124,6 +124,7 @@ class RefParty:
         tsr = next(p for p in inner if p['type'] == codec.TSR)
         transport = any(p['type'] == codec.NOTIFY and p.get('ntype') == 16391 for p in inner)
         pr, chosen = pick_suite(sa['proposals'])
+        chosen = [t for t in chosen if t['type'] != 4]      # the CHILD_SA of IKE_AUTH is keyed without a new Diffie-Hellman exchange (RFC 7296 1.2)
         if force_child is not None:
             chosen = force_child
         if force_child_proto is not None:
